@@ -11,6 +11,7 @@ import (
 	"strings"
 	"sync"
 	"sync/atomic"
+	"time"
 
 	"github.com/pip-services3-gox/pip-services3-expressions-gox/calculator"
 	"github.com/pip-services3-gox/pip-services3-expressions-gox/calculator/variables"
@@ -169,7 +170,10 @@ func c19ExprExec(c *mon.Case) {
 	r := mon.NewRng(seed, "c19-order")
 	want := make([]string, len(envs))
 	for k := range envs {
-		want[k] = evalString(calc, colls[k])
+		// the reference for each variable set comes from a fresh calculator that never saw another set
+		fresh := calculator.NewExpressionCalculator()
+		fresh.SetExpression(src)
+		want[k] = evalString(fresh, envs[k].collection())
 	}
 	for round := 0; round < 3; round++ {
 		order := make([]int, len(envs))
@@ -182,7 +186,7 @@ func c19ExprExec(c *mon.Case) {
 		}
 		for _, k := range order {
 			if got := evalString(calc, colls[k]); got != want[k] {
-				c.Failf("repeated evaluation with equal inputs gives a different result", "expression=%q variables=%s: first %s, later %s", src, envs[k], want[k], got)
+				c.Failf("evaluation interleaved with other variable sets differs from the result of a fresh calculator", "expression=%q variables=%s: fresh calculator %s, reused calculator %s", src, envs[k], want[k], got)
 				return
 			}
 		}
@@ -359,7 +363,18 @@ func buildC19(cfg *mon.Config) []*mon.Sub {
 				src := printings(t, r.Next()%1000)[0]
 				var envs []string
 				for k := 0; k < 8; k++ {
-					envs = append(envs, encEnv(stdEnv(r)))
+					e := stdEnv(r)
+					if k%2 == 1 { // every other collection holds the same names at other positions, plus strangers
+						for a := len(e.names) - 1; a > 0; a-- {
+							b := r.Intn(a + 1)
+							e.names[a], e.names[b] = e.names[b], e.names[a]
+							e.vals[a], e.vals[b] = e.vals[b], e.vals[a]
+						}
+						at := r.Intn(len(e.names) + 1)
+						e.names = append(e.names[:at], append([]string{"stranger" + strconv.Itoa(k)}, e.names[at:]...)...)
+						e.vals = append(e.vals[:at], append([]Val{vInt(-99)}, e.vals[at:]...)...)
+					}
+					envs = append(envs, encEnv(e))
 				}
 				G := mon.Pick(r, []int{2, 4, 16})
 				emit(src + "\x00" + strconv.Itoa(G) + "\x02" + strconv.Itoa(cfg.N(40, 100)) + "\x02" + strconv.Itoa(r.Intn(1000000)) + "\x02" + strings.Join(envs, "\x02"))
@@ -481,5 +496,51 @@ func buildC19(cfg *mon.Config) []*mon.Sub {
 		}
 		return ""
 	}
-	return []*mon.Sub{exprs, tmpls, own, race}
+	args := &mon.Sub{
+		Name:          "function-argument-purity",
+		Serial:        true,
+		Rule:          "every deterministic default function called through an expression with variables of every value type (Integer, Long, Float, Double, String, Boolean, Null, Array, TimeSpan, DateTime) passed directly as arguments, three evaluations in a row on one calculator and one collection: the results repeat and a snapshot of all variable values is unchanged (a function must not write into its arguments)",
+		Exhaustive:    true,
+		DistinctByGen: true,
+		Floor:         30,
+		Gen: func(emit func(string)) {
+			vars := []string{"vi", "vl", "vf", "vd", "vs", "vb", "vn", "va", "vp", "vt"}
+			for _, n := range c08Names {
+				switch strings.ToUpper(n) {
+				case "NOW", "TICKS", "RND", "RANDOM", "NULL":
+					continue
+				}
+				for _, a := range vars {
+					emit(n + "(" + a + ")")
+					for _, b := range []string{"vi", "vd", "vs"} {
+						emit(n + "(" + a + ", " + b + ")")
+						emit(n + "(" + a + ", " + b + ", vd)")
+					}
+				}
+			}
+		},
+		Exec: func(c *mon.Case) {
+			c.NonTrivial()
+			e := &env{names: []string{"vi", "vl", "vf", "vd", "vs", "vb", "vn", "va", "vp", "vt"},
+				vals: []Val{vInt(16), vLong(81), vFloat(2.25), vDouble(16), vStr("16"), vBool(true), vNull(), vArr(vDouble(4), vInt(9)), vSpan(1500000000), vTime(time.Unix(86400*365, 0).UTC())}}
+			calc := calculator.NewExpressionCalculator()
+			if err := calc.SetExpression(c.Payload); err != nil {
+				c.Count("rejected")
+				return
+			}
+			vc := e.collection()
+			before := calcSnapshot(calc, []*variables.VariableCollection{vc})
+			first := evalString(calc, vc)
+			for k := 0; k < 2; k++ {
+				if got := evalString(calc, vc); got != first {
+					c.Failf("repeated evaluation with equal inputs gives a different result", "expression=%q: first %s, later %s", c.Payload, first, got)
+					return
+				}
+			}
+			if after := calcSnapshot(calc, []*variables.VariableCollection{vc}); after != before {
+				c.Failf("evaluation modified the compiled program, a variable value or the function table", "expression=%q\nbefore %s\nafter  %s", c.Payload, before, after)
+			}
+		},
+	}
+	return []*mon.Sub{exprs, tmpls, own, args, race}
 }
